@@ -214,6 +214,23 @@ func RunStorageErrors(c *Ctx) {
 					Msg: fmt.Sprintf("the error of %s is dropped (%s): a storage failure at this point would go unnoticed", types.ExprString(sc.call), dropped), Ctl: fi.Ctl})
 				continue
 			}
+			// 1b. the error must be examined (read) on every path before it is overwritten or the function ends
+			if p, ok := pm[sc.call].(*ast.AssignStmt); ok && len(p.Rhs) == 1 && sidx < len(p.Lhs) {
+				if id, ok := p.Lhs[sidx].(*ast.Ident); ok && id.Name != "_" {
+					v := info.Defs[id]
+					if v == nil {
+						v = info.Uses[id]
+					}
+					if v != nil {
+						if where := errUnexamined(fi, p, v); where != "" {
+							c.R.Obl(Obligation{Rule: "E5.R-storage", Func: fi.Name, Construct: construct + " (error examined)", Pos: pos, Discharged: false, Nontrivial: true, Ctl: fi.Ctl})
+							c.R.Find(Finding{Rule: "E5.R-storage", Func: fi.Name, Construct: "unexamined error of " + construct, Pos: pos,
+								Msg: fmt.Sprintf("the error of %s is stored in %s but %s before anything reads it: a storage failure at this point goes unnoticed", types.ExprString(sc.call), v.Name(), where), Ctl: fi.Ctl})
+							continue
+						}
+					}
+				}
+			}
 			// 2. nothing is granted on the error edge
 			if f == nil {
 				f = e.analyse(fi)
@@ -297,4 +314,106 @@ func RunStorageErrors(c *Ctx) {
 			c.R.Extra["storage_fallback_unused:"+k] = true
 		}
 	}
+}
+
+
+// errUnexamined: starting after the statement `def` (which assigns v), is there a CFG path on which v is
+// overwritten, or the function ends, before any node reads v?  Returns a description of the first such event, or "".
+func errUnexamined(fi *FuncInfo, def ast.Stmt, v types.Object) string {
+	g := fi.CFG()
+	if g == nil {
+		return ""
+	}
+	info := fi.Pkg.TypesInfo
+	reads := func(n ast.Node) bool {
+		found := false
+		var lhs map[*ast.Ident]bool
+		if as, ok := n.(*ast.AssignStmt); ok {
+			lhs = map[*ast.Ident]bool{}
+			for _, l := range as.Lhs {
+				if id, ok := unparen(l).(*ast.Ident); ok {
+					lhs[id] = true
+				}
+			}
+		}
+		ast.Inspect(n, func(m ast.Node) bool {
+			if _, isLit := m.(*ast.FuncLit); isLit {
+				// a closure that mentions v may read it later: count as a read
+			}
+			if id, ok := m.(*ast.Ident); ok && info.Uses[id] == v && !lhs[id] {
+				found = true
+			}
+			return !found
+		})
+		return found
+	}
+	writes := func(n ast.Node) bool {
+		if as, ok := n.(*ast.AssignStmt); ok {
+			for _, l := range as.Lhs {
+				if id, ok := unparen(l).(*ast.Ident); ok && (info.Uses[id] == v || info.Defs[id] == v) {
+					return true
+				}
+			}
+		}
+		return false
+	}
+	// named results are read by a bare return / at function exit
+	isResult := false
+	if fi.Sig != nil {
+		for i := 0; i < fi.Sig.Results().Len(); i++ {
+			if fi.Sig.Results().At(i) == v {
+				isResult = true
+			}
+		}
+	}
+	// locate the defining node
+	startB, startI := -1, -1
+	for _, b := range g.Blocks {
+		for i, n := range b.Nodes {
+			if n == ast.Node(def) {
+				startB, startI = int(b.Index), i
+			}
+		}
+	}
+	if startB < 0 {
+		return ""
+	}
+	type item struct{ b, i int }
+	seen := map[int]bool{}
+	var walk func(b, i int) string
+	walk = func(bi, from int) string {
+		b := g.Blocks[bi]
+		for i := from; i < len(b.Nodes); i++ {
+			n := b.Nodes[i]
+			if reads(n) {
+				return ""
+			}
+			if rs, ok := n.(*ast.ReturnStmt); ok {
+				if isResult && len(rs.Results) == 0 {
+					return ""
+				}
+				return fmt.Sprintf("the function returns at line %d", fi.Pkg.Fset.Position(rs.Pos()).Line)
+			}
+			if writes(n) {
+				return fmt.Sprintf("is overwritten at line %d", fi.Pkg.Fset.Position(n.Pos()).Line)
+			}
+		}
+		if len(b.Succs) == 0 {
+			if isResult {
+				return ""
+			}
+			return "the function ends"
+		}
+		for _, s := range b.Succs {
+			if seen[int(s.Index)] {
+				continue
+			}
+			seen[int(s.Index)] = true
+			if w := walk(int(s.Index), 0); w != "" {
+				return w
+			}
+		}
+		return ""
+	}
+	return walk(startB, startI+1)
 }
